@@ -298,8 +298,7 @@ func (x *c02ctx) viaTransport(op, pathClass string, in []byte) {
 	tp2 := rig.NewTransportPair(faultconn.Options{}, nil, nil)
 	tp2.CA.SetTap(false)
 	defer func() {
-		_ = tp2.A.Close()
-		_ = tp2.B.Close()
+		tp2.Close()
 	}()
 	var serr error
 	func() {
